@@ -10,6 +10,7 @@ from collections import Counter
 
 from .. import gen
 from .. import refmodel as M
+from .. import salt as SALT
 
 ID = "C03"
 LEVEL = "exploration"
@@ -95,8 +96,11 @@ def judge(case, rep, S):
     # (a) composition-only, fresh object per presentation
     values = []
     first_obj = None
-    for s in presentations[:3]:
+    for j_, s in enumerate(presentations[:3]):
         o = S["SP"](s)
+        if j_ == 2 and (p + 2 * n + z) % 4 == 0:
+            # other legal queries first: none of them may change what delta-max is
+            SALT.salt(S, o, "".join(s), rng, rep, k=2, cheap=False)
         first_obj = first_obj or o
         values.append(o.get_deltaMax())
     v0 = values[0]
